@@ -262,10 +262,13 @@ type Switch struct {
 	// successive values of the two retry switches, set together with Flips[i]
 	Retry416     []bool `json:"retry_416,omitempty"`
 	RetryInvalid []bool `json:"retry_invalid,omitempty"`
+	// RejectedAfter[i]: after the i-th accepted change a few updates follow that repeat the three switches as they
+	// are and add an ill-typed value for another setting: they are refused as a whole and change nothing
+	RejectedAfter []bool `json:"rejected_after,omitempty"`
 }
 
 var subSwitch = ev.Register("switches-live",
-	"a running proxy whose ignore_cache_control, retry_on_range_416 and retry_on_invalid_range switches are changed through accepted updates (1-5 successive settings of all three); after every change: a fresh no-store resource requested twice (fetched twice when directives are obeyed, served from the store the second time when they are ignored); a ranged request to an origin that refuses ranges with 416 (retried without Range when retry_on_range_416 is on - the origin sees two requests -, relayed as 416 after one request when it is off); an out-of-bounds Range on a stored resource of an origin that ignores Range (the full 200 when retry_on_invalid_range is on, 416 when it is off); non-trivial = at least two changes; distinct by setting sequence",
+	"a running proxy whose ignore_cache_control, retry_on_range_416 and retry_on_invalid_range switches are changed through accepted updates (1-5 successive settings of all three, optionally followed by updates that are refused as a whole); after every change: a fresh no-store resource requested twice (fetched twice when directives are obeyed, served from the store the second time when they are ignored); a ranged request to an origin that refuses ranges with 416 (retried without Range when retry_on_range_416 is on - the origin sees two requests -, relayed as 416 after one request when it is off); an out-of-bounds Range on a stored resource of an origin that ignores Range (the full 200 when retry_on_invalid_range is on, 416 when it is off); non-trivial = at least two changes; distinct by setting sequence",
 	func(c Switch, o *ev.Obs) *ev.Failure {
 		dir, _ := os.MkdirTemp("", "verif-c19s-")
 		defer os.RemoveAll(dir)
@@ -307,6 +310,15 @@ var subSwitch = ev.Register("switches-live",
 			}
 			if _, err := config.UpdatePartialFromConfig(env.Cfg, map[string]any{"proxy": map[string]any{"retry_on_range_416": r416, "retry_on_invalid_range": rinv, "cache_policy": map[string]any{"ignore_cache_control": v}}}); err != nil {
 				return ev.Failf("switch.update-rejected", "%v", err)
+			}
+			if i < len(c.RejectedAfter) && c.RejectedAfter[i] {
+				o.Class("rejected-update-between")
+				for k := 0; k < 6; k++ { // the order in which the keys of an update are taken up is random
+					if _, err := config.UpdatePartialFromConfig(env.Cfg, map[string]any{"proxy": map[string]any{"retry_on_range_416": r416, "retry_on_invalid_range": rinv, "listen": 17 + k,
+						"cache_policy": map[string]any{"ignore_cache_control": v, "default_max_age": []int{k}}}}); err == nil {
+						return ev.Failf("switch.ill-typed-update-accepted", "an update with a number for proxy.listen was accepted")
+					}
+				}
 			}
 			state := fmt.Sprintf("settings so far ignore_cache_control=%v retry_on_range_416=%v retry_on_invalid_range=%v, now (%v, %v, %v)", c.Flips[:i+1], c.Retry416, c.RetryInvalid, v, r416, rinv)
 			path := fmt.Sprintf("/s%d", i)
@@ -360,6 +372,7 @@ func TestSwitchesLive(t *testing.T) {
 		for range c.Flips {
 			c.Retry416 = append(c.Retry416, rapid.Bool().Draw(t, "retry416"))
 			c.RetryInvalid = append(c.RetryInvalid, rapid.Bool().Draw(t, "retry-invalid"))
+			c.RejectedAfter = append(c.RejectedAfter, rapid.IntRange(0, 2).Draw(t, "rejected-after") == 0)
 		}
 		return c
 	})
